@@ -1,6 +1,8 @@
 package util
 
 import (
+	"errors"
+	"fmt"
 	"net"
 
 	"git.torproject.org/pluggable-transports/snowflake.git/v2/internal/verifapi"
@@ -181,4 +183,32 @@ func VerifSelf_JSONTransfer() uint64 {
 		}
 	}
 	return sum
+}
+
+// ---- fmt.Fprint* to a writer (engine/fmtmodel.go) against the real fmt ----
+
+type verifSelfW struct{ b []byte }
+
+func (w *verifSelfW) Write(p []byte) (int, error) { w.b = append(w.b, p...); return len(p), nil }
+
+type verifSelfName string
+
+func VerifSelf_Fprint() uint64 {
+	w := &verifSelfW{}
+	fmt.Fprintf(w, "a%sb%sc%d%%", "S", []byte("by"), 42)
+	fmt.Fprintf(w, "plain\n")
+	fmt.Fprintf(w, "%s/%v/%d", verifSelfName("nm"), errors.New("boom"), int8(-3))
+	fmt.Fprintln(w, "x", "y")
+	fmt.Fprintln(w, "only")
+	fmt.Fprint(w, "p", "q")
+	fmt.Fprint(w, "n", 7, 8, "m")
+	n, err := fmt.Fprintf(w, "%d", uint16(65535))
+	var sum uint64 = uint64(n)
+	if err == nil {
+		sum += 100
+	}
+	for _, c := range w.b {
+		sum = (sum*131 + uint64(c)) % 1000000007
+	}
+	return sum + uint64(len(w.b))*1000000007
 }
